@@ -85,6 +85,10 @@ Inductive pc :=
 | WHead (b : batch) (idx : nat) (s : N) (g : nat)
 | WPublished (b : batch) (idx : nat) (s : N)
 | WUnlinked (b : batch) (s : N)
+(* write, error path: the log refused the batch (empty, oversized, I/O error) *)
+| WFailed (b : batch) (idx : nat) (s : N)
+| WFailedL (b : batch) (idx : nat) (s : N)
+| WFailedU (b : batch) (s : N)
 (* load / range_scan *)
 | RInvoked (q : rquery)
 | RGetMem (k : key) (sn : snap)
@@ -244,6 +248,10 @@ Inductive label :=
 | LWPublish (t : tid) (s : N)
 | LWUnlink (t : tid)
 | LWRet (t : tid)
+| LWFail (t : tid)
+| LWLockF (t : tid)
+| LWUnlinkF (t : tid)
+| LWRetF (t : tid)
 | LInvR (t : tid) (q : rquery)
 | LSnap (t : tid) (ts : N)
 | LRMem (t : tid) (hit : bool)
@@ -386,6 +394,31 @@ Definition step (st : state) (l : label) : option state :=
   | LWRet t =>
       match getpc st t with
       | WUnlinked b s => guard (holds st (OClient t)) (with_pc (with_mutex st None) t Idle)
+      | _ => None
+      end
+  (* the error path of write (commit bb64109): log.append (or the conversion of the batch) fails
+     before anything is inserted; the refs are dropped, the store mutex is taken, the guard is
+     dropped WITHOUT waiting to be the head and WITHOUT publishing, the head is notified *)
+  | LWFail t =>
+      match getpc st t with
+      | WAppending b idx s g => Some (with_pc st t (WFailed b idx s))
+      | _ => None
+      end
+  | LWLockF t =>
+      match getpc st t with
+      | WFailed b idx s => guard (free st) (with_pc (with_mutex st (Some (OClient t))) t (WFailedL b idx s))
+      | _ => None
+      end
+  | LWUnlinkF t =>
+      match getpc st t with
+      | WFailedL b idx s =>
+          guard (holds st (OClient t))
+                (with_pc (with_wl st (k_wlnext st) (unlink (k_wllive st) idx)) t (WFailedU b s))
+      | _ => None
+      end
+  | LWRetF t =>
+      match getpc st t with
+      | WFailedU b s => guard (holds st (OClient t)) (with_pc (with_mutex st None) t Idle)
       | _ => None
       end
   (* ---------------------------------------------------------------- load / range_scan *)
